@@ -182,6 +182,39 @@ def gen_cases(rng, tier):
             if kind == "se":
                 nums.append(rng.choice(["uac", "uas", "-"]))
             cases.append(["h%d" % j, "c01", "num", kind, ",".join(nums)]); j += 1
+    # the other typed headers: authentication (numbers in hex on the wire), Via, Replaces, Retry-After, Subscription-State, lists
+    QTEXT = ["example.org", "dcd98b7102dd2f0e8b11d0f600bfb0c093", "sip:bob@example.org", "a b", "x,y", "a=b", "semi;colon", "5ccc069c403ebaf9f0171e9517f40e41", "r", "ü nonce", "a, b=c"]
+    TOK = ["a", "abc", "A1", "x-y", "a.b", "a_b", "z9hG4bK776asdhds", "100rel", "timer", "presence", "x~y", "FOO"]
+    ALGS = ["MD5", "MD5-sess", "SHA-256", "SHA-256-sess", "SHA-512-256", "SHA-512-256-sess", "XYZ-1"]
+    NCS = [0, 1, 9, 10, 15, 16, 26, 255, 256, 4095, 0xABCDEF, 0x99999999, 0x10000000, U32 - 1, U32]
+    j = 0
+    def add(kind, fields):
+        nonlocal j
+        cases.append(["y%d" % j, "c01", "typed", kind, "|".join(fields)]); j += 1
+    for nc in NCS:
+        add("authr", [hx("alice"), hx("example.org"), hx("n0nce"), hx("sip:bob@example.org"), hx("6629fae49393a05397450978507c4ef1"), "MD5", "-", "auth", hx("0a4f113b"), str(nc), "0", "0"])
+    for _ in range(60 if tier == "quick" else 1500):
+        qop = rng.choice(["-", "auth", "auth-int", "auth", "token"])
+        user = rng.choice(["alice", "bob smith", "ü", "a@b", "+4912345", "x\"y"])
+        # RFC 7616 3.4.4: userhash=true together with username* is an error (the parser rejects it): not a value to round-trip
+        uh = rng.choice("01") if re.fullmatch(r"[A-Za-z0-9!#$&+.^_`|~-]+", user) else "0"
+        add("authr", [hx(user), hx(rng.choice(QTEXT)), hx(rng.choice(QTEXT)), hx(rng.choice(QTEXT)), hx(rng.choice(QTEXT)),
+                      rng.choice(ALGS), rng.choice(["-", hx(rng.choice(QTEXT))]), qop, hx(rng.choice(QTEXT)), str(rng.choice(NCS + [rng.randrange(U32)])), uh, rng.choice("01")])
+        add("authc", [hx(rng.choice(QTEXT)), rng.choice(["-", hx("sip:example.org")]), hx(rng.choice(QTEXT)), rng.choice(["-", hx(rng.choice(QTEXT))]), rng.choice("01"), rng.choice(ALGS),
+                      rng.choice(["", "auth", "auth,auth-int", "auth-int", "auth,token"]), rng.choice("01"), rng.choice("01")])
+    for _ in range(40 if tier == "quick" else 800):
+        vp = [("branch", "z9hG4bK" + rng.choice(TOK))] + rng.sample([("rport", None), ("rport", "5060"), ("received", "192.0.2.1"), ("ttl", "16"), ("maddr", "224.0.1.75"), ("x", "y"), ("lr", None)], rng.randrange(0, 3))
+        add("via", [rng.choice(["UDP", "TCP", "TLS", "SCTP", "WS", "udp"]), rng.choice(HOSTS), rng.choice(["-", "5060", "1", "65535"]), enc_params(vp)])
+        add("replaces", [hx(rng.choice(["abc@host", "12345", "a.b-c"])), hx(rng.choice(TOK)), hx(rng.choice(TOK)), rng.choice("01")])
+        add("retry", [str(rng.choice([0, 1, 120, U32])), enc_params(rng.sample([("duration", "3600"), ("x", "y"), ("flag", None)], rng.randrange(0, 3))), rng.choice(["-", hx("in a meeting"), hx("x")])])
+        add("substate", [rng.choice(["active", "pending", "terminated"]), rng.choice(["-", "0", "3600", str(U32)]), rng.choice(["-", "deactivated", "probation", "rejected", "timeout", "giveup", "noresource", "invariant", "custom"]),
+                         rng.choice(["-", "0", "30", str(U32)]), enc_params(rng.sample([("x", "y"), ("flag", None)], rng.randrange(0, 2)))])
+        add("callid", [hx(rng.choice(["a84b4c76e66710@pc33.atlanta.com", "abc", "1-2@[::1]", "x%y"]))])
+        add("ctype", [hx(rng.choice(["application/sdp", "text/plain;charset=utf-8", "multipart/mixed;boundary=\"x y\"", "application/pidf+xml"]))])
+        add("event", [hx(rng.choice(["presence", "dialog;id=1", "refer", "message-summary"]))])
+        for k2 in ("supported", "require", "allowev", "accept"):
+            add(k2, [",".join(rng.sample(TOK, rng.randrange(1, 4)))])
+        add("allow", [",".join(rng.sample(METHODS + ["FOO", "INVITEX"], rng.randrange(1, 6)))])
     # whole messages: start line, ordered header values per name, body (through Endpoint::send_outgoing_*)
     names = ["Via", "From", "To", "Call-ID", "CSeq", "Route", "Record-Route", "X-Custom", "Subject", "Contact", "Allow", "Supported",
              "v", "f", "t", "i", "m", "k", "l", "L", "s", "c", "e", "u", "o", "r", "b", "x", "VIA", "call-id", "CONTENT-LENGTH", "content-length",
@@ -246,6 +279,19 @@ def oracle(case, impl):
             return ["no observation: " + impl[:200]]
         if m.group(2) != case[4]:
             out.append("header %s(%s) printed as %r parses back to %s" % (case[3], case[4], bytes.fromhex(m.group(1)).decode("utf-8", "replace"), m.group(2)))
+    elif kind == "typed":
+        m = re.match(r"T1=(\S*)\tD=(\S*)(?:\tT2=(\S*))?", impl)
+        if not m:
+            return ["no observation: " + impl[:200]]
+        t1 = bytes.fromhex(m.group(1)).decode("utf-8", "replace").strip()
+        if m.group(2) in ("ERR", "UNPARSED-MESSAGE"):
+            return ["typed header %s printed as %r is rejected by the library's own parser" % (case[3], t1)]
+        if m.group(2) != "same":
+            a, _, b = m.group(2).partition("<>")
+            return ["typed header %s printed as %r parses back to a different value: %s, was %s" % (
+                case[3], t1, bytes.fromhex(b).decode("utf-8", "replace")[:300], bytes.fromhex(a).decode("utf-8", "replace")[:300])]
+        if m.group(3) != m.group(1):
+            out.append("serialise-parse-serialise is not a fixpoint for %s: %r then %r" % (case[3], t1, bytes.fromhex(m.group(3) or "").decode("utf-8", "replace")))
     elif kind == "msg":
         f = case[3].split("|")
         if "UNPARSED" in impl:
